@@ -45,7 +45,7 @@ func (c Cfg) String() string {
 var (
 	protoSels = []string{"nil", "none", "all", "second", "slice-small", "slice-big", "custom"}
 	extSels   = []string{"nil", "extension-all", "extension-none", "extension-custom", "negotiate-accept", "negotiate-decline", "negotiate-error", "negotiate-wsflate"}
-	hdrKinds  = []string{"nil", "string", "bytes", "func", "http"}
+	hdrKinds  = []string{"nil", "string", "bytes", "func", "http", "bytes-large", "func-large", "http-large"}
 	rejects   = []string{"", "OnRequest", "OnHost", "OnHeader", "OnBeforeUpgrade"}
 	rejKinds  = []string{"plain", "custom", "nostatus", "plain-slice", "plain-struct", "plain-percent", "custom-percent"}
 
@@ -156,8 +156,43 @@ func extraHeader(kind string) (ws.HandshakeHeader, http.Header) {
 	case "http":
 		h := http.Header{"X-Extra": []string{"one"}}
 		return ws.HandshakeHeaderHTTP(h), h
+	// the same with more bytes than the response writer's buffer holds (whatever path the buffered writer
+	// takes for a large write, the response still carries every header, in order)
+	case "bytes-large":
+		return ws.HandshakeHeaderBytes("X-Extra: one\r\nX-Pad: " + extraPad + "\r\nX-After: pad\r\n"), nil
+	case "func-large":
+		return ws.HandshakeHeaderFunc(func(w io.Writer) (int64, error) {
+			var n int64
+			for _, part := range []string{"X-Extra: one\r\n", "X-Pad: " + extraPad + "\r\n", "X-After: pad\r\n"} {
+				m, err := w.Write([]byte(part))
+				n += int64(m)
+				if err != nil {
+					return n, err
+				}
+			}
+			return n, nil
+		}), nil
+	case "http-large":
+		h := http.Header{"X-Extra": []string{"one"}, "X-Pad": []string{extraPad}, "X-After": []string{"pad"}}
+		return ws.HandshakeHeaderHTTP(h), h
 	}
 	return nil, nil
+}
+
+var extraPad = strings.Repeat("0123456789abcdef", 400)
+
+// extraOK: the caller's extra header(s) as found in a response.
+func extraOK(kind string, h http.Header) bool {
+	if kind == "nil" {
+		return true
+	}
+	if h.Get("X-Extra") != "one" {
+		return false
+	}
+	if strings.HasSuffix(kind, "-large") {
+		return h.Get("X-Pad") == extraPad && h.Get("X-After") == "pad"
+	}
+	return true
 }
 
 // outcome of one upgrade.
@@ -307,6 +342,10 @@ func startHTTP() {
 				}
 				if cfg.Header != "nil" {
 					u.Header = http.Header{"X-Extra": []string{"one"}}
+					if strings.HasSuffix(cfg.Header, "-large") {
+						u.Header.Set("X-Pad", extraPad)
+						u.Header.Set("X-After", "pad")
+					}
 				}
 				conn, _, hs, err := u.Upgrade(r, w)
 				if conn != nil {
@@ -563,7 +602,7 @@ func decide(c *mon.C, upgrader string, cfg Cfg, req *gen.Req, protoHdrs, extHdrs
 				return false
 			}
 		}
-		if cfg.Header != "nil" && ri.header.Get("X-Extra") != "one" {
+		if !extraOK(cfg.Header, ri.header) {
 			c.Fail(sigp+"/success-extra-header", "the caller's extra header is missing from the 101 response", det())
 			return false
 		}
@@ -611,7 +650,7 @@ func decide(c *mon.C, upgrader string, cfg Cfg, req *gen.Req, protoHdrs, extHdrs
 				c.Fail(sigp+"/failure-trailing", "bytes follow the error body", det())
 				return false
 			}
-			if cfg.Header != "nil" && ri.header.Get("X-Extra") != "one" {
+			if !extraOK(cfg.Header, ri.header) {
 				c.Fail(sigp+"/failure-extra-header", "the caller's extra header is missing from the error response", det())
 				return false
 			}
